@@ -41,6 +41,11 @@ type Compiler struct {
 	varNameMangle   map[string]uint64
 	labelNameMangle map[string]uint64
 	varScopes       []map[string]string
+	// Every module has its own scope of globals (and singletons): two modules may use the same name.
+	// While a module is being compiled, its scope is installed as the outermost variable scope.
+	globalScopes map[string]map[string]string
+	// For each module: functions which it imports from other Homescript modules (source name -> mangled name).
+	importedFns map[string]map[string]string
 	currScope       *map[string]string
 	currModule      string
 	lambdaCount     uint
@@ -63,6 +68,8 @@ func NewCompiler(program map[string]ast.AnalyzedProgram, entryPointModule string
 		varNameMangle:   make(map[string]uint64),
 		labelNameMangle: make(map[string]uint64),
 		varScopes:       scopes,
+		globalScopes:    make(map[string]map[string]string),
+		importedFns:     make(map[string]map[string]string),
 		currScope:       currScope,
 		currModule:      "",
 		currFn:          "",
@@ -126,7 +133,7 @@ func (self *Compiler) compileProgram(
 	}
 
 	for moduleName, module := range program {
-		self.currModule = moduleName
+		self.enterModule(moduleName)
 		self.modules[self.currModule] = make(map[string]*Function)
 
 		initFn := self.mangleFn(InitFunctionIdent)
@@ -188,6 +195,32 @@ func (self *Compiler) compileProgram(
 		}
 	}
 
+	// Now that every module's globals and functions are known, make the items which a module imports
+	// from another Homescript module visible in the importing module (and only there).
+	for moduleName, module := range program {
+		for _, item := range module.Imports {
+			if !item.TargetIsHMS {
+				continue
+			}
+
+			fromModule := item.FromModule.Ident()
+
+			for _, importItem := range item.ToImport {
+				if importItem.Kind != pAst.IMPORT_KIND_NORMAL {
+					continue
+				}
+
+				ident := importItem.Ident.Ident()
+
+				if mangled, found := self.globalScopes[fromModule][ident]; found {
+					self.globalScopes[moduleName][ident] = mangled
+				} else if fn, found := self.modules[fromModule][ident]; found {
+					self.importedFns[moduleName][ident] = fn.MangledName
+				}
+			}
+		}
+	}
+
 	// self.currModule = entryPointModule
 	// entryPointFN := self.mangleFn(EntryPointFunctionIdent)
 	// self.addFn(EntryPointFunctionIdent, entryPointFN)
@@ -207,7 +240,7 @@ func (self *Compiler) compileProgram(
 	moduleAnnotations := make(ModuleAnnotations)
 
 	for moduleName, module := range program {
-		self.currModule = moduleName
+		self.enterModule(moduleName)
 
 		// Compile all functions
 		var mainFnSpan errors.Span
@@ -251,7 +284,7 @@ func (self *Compiler) compileProgram(
 			// If the current module is the entry module,
 			// Go back to the entrypoint function and insert the main function call.
 			self.currFn = InitFunctionIdent
-			self.currModule = entryPointModule
+			self.enterModule(entryPointModule)
 
 			for moduleName, otherInit := range initFns {
 				if moduleName == entryPointModule {
